@@ -199,6 +199,11 @@ fn monitors(cx: &mut Ctx, op: &Op, ok: bool, before: &Snap, after: &Snap) {
             }
             if before.supply - after.supply != *amount || before.lp[*u] - after.lp[*u] != *amount { out.monitor_fail("C04", "withdrawal did not burn exactly the LP sent", rp.clone()); }
         }
+        Op::SetFees { .. } => {
+            // a fee update names no ramp: the amplification schedule (both amps, both blocks) stays what it was, and nothing moves
+            if after.cfg != before.cfg { out.monitor_fail("C04", &format!("an UpdateConfig that names only the fee schedule changed the amplification schedule from {:?} to {:?}", before.cfg, after.cfg), rp.clone()); }
+            if after.bal != before.bal || after.fee != before.fee || after.supply != before.supply { out.monitor_fail("C04", "a fee update moved funds or ledgers", rp.clone()); }
+        }
         Op::Collect => {
             for k in 0..3 {
                 let sent = after.coll[k] - before.coll[k];
